@@ -218,45 +218,37 @@ static int raw_read_file(const char *path, char *buf, int cap) {
 
 struct vdirent64 { uint64_t d_ino; int64_t d_off; unsigned short d_reclen; unsigned char d_type; char d_name[]; };
 
-/* 1 if this process has a child that is still running (not a zombie). waitid(WNOWAIT) cannot tell: as long as
- * one un-reaped zombie exists it keeps reporting that one, whatever the other children do. */
+/* Children are recorded when janet spawns them (sbxwrap's posix_spawn/fork wrappers call verif_note_child).
+ * /proc/<tid>/children is documented as unreliable while children come and go, and waitid(WNOWAIT) keeps
+ * reporting the same un-reaped zombie whatever the other children do. */
+#define VERIF_MAX_KIDS 8192
+static volatile int kid_pids[VERIF_MAX_KIDS];
+static volatile int kid_n = 0;
+void verif_note_child(int pid) {
+    if (pid <= 0) return;
+    int i = __atomic_fetch_add(&kid_n, 1, __ATOMIC_SEQ_CST);
+    if (i < VERIF_MAX_KIDS) kid_pids[i] = pid;
+}
+
+/* 1 if this process has a child that is still running (not a zombie) */
 static int running_children(void) {
-    int dfd = (int) syscall(SYS_openat, AT_FDCWD, "/proc/self/task", O_RDONLY | O_DIRECTORY | O_CLOEXEC);
-    if (dfd < 0) {
-        siginfo_t info;
-        memset(&info, 0, sizeof info);
-        if (waitid(P_ALL, 0, &info, WEXITED | WNOHANG | WNOWAIT) != 0) return 0; /* ECHILD: none */
-        return info.si_pid == 0;
+    int n = __atomic_load_n(&kid_n, __ATOMIC_SEQ_CST);
+    if (n > VERIF_MAX_KIDS) n = VERIF_MAX_KIDS;
+    long self = (long) syscall(SYS_getpid);
+    for (int i = 0; i < n; i++) {
+        int pid = kid_pids[i];
+        if (pid <= 0) continue;
+        char path[64], st[512];
+        snprintf(path, sizeof path, "/proc/%d/stat", pid);
+        if (raw_read_file(path, st, sizeof st) <= 0) { kid_pids[i] = 0; continue; }   /* reaped */
+        char *rp = strrchr(st, ')');
+        if (!rp || rp[1] != ' ') continue;
+        char state = rp[2];
+        long ppid = strtol(rp + 3, NULL, 10);
+        if (ppid != self) { kid_pids[i] = 0; continue; }     /* the pid was reused by somebody else */
+        if (state != 'Z' && state != 'X') return 1;
     }
-    int running = 0;
-    char dbuf[4096];
-    for (;;) {
-        long n = syscall(SYS_getdents64, dfd, dbuf, sizeof dbuf);
-        if (n <= 0) break;
-        for (long off = 0; off < n && !running;) {
-            struct vdirent64 *de = (struct vdirent64 *)(dbuf + off);
-            off += de->d_reclen;
-            if (de->d_name[0] == '.') continue;
-            char path[128], kids[8192];
-            snprintf(path, sizeof path, "/proc/self/task/%s/children", de->d_name);
-            if (raw_read_file(path, kids, sizeof kids) <= 0) continue;
-            char *p = kids;
-            while (*p && !running) {
-                char *end;
-                long pid = strtol(p, &end, 10);
-                if (end == p) break;
-                p = end;
-                char st[512];
-                snprintf(path, sizeof path, "/proc/%ld/stat", pid);
-                if (raw_read_file(path, st, sizeof st) <= 0) continue;     /* gone meanwhile */
-                char *rp = strrchr(st, ')');
-                if (rp && rp[1] == ' ' && rp[2] != 'Z' && rp[2] != 'X') running = 1;
-            }
-        }
-        if (running) break;
-    }
-    syscall(SYS_close, dfd);
-    return running;
+    return 0;
 }
 
 int __wrap_epoll_wait(int epfd, struct epoll_event *events, int maxevents, int timeout) {
